@@ -118,6 +118,9 @@ v('C14', 'fire', 'inertial_sensor.py', '                if actual != nominal:', 
 v('C14', 'silent', 'inertial_sensor.py', '                if actual != nominal:', '                if not actual == nominal:', 'same exact test, other spelling')
 v('C14', 'silent', 'inertial_sensor.py', '                if actual != nominal:', '                if actual - nominal != 0:', 'same exact test on the deviation')
 FL = 'filters.py'
+v('C12 C11', 'fire', FL, '                               azimuth_sd, error_model, gyro_model, accel_model)\n\n    ins_block', '                               azimuth_sd, error_model, accel_model, accel_model)\n\n    ins_block', 'survey (exit 2 before): the accelerometer model in the gyro slot of the initial covariance')
+v('C13 C02', 'fire', K, 'velocity_n[j + 1, 2] = 0.0', 'velocity_n[j + 1, 3] = 0.0', 'survey (exit 2 before): out-of-bounds store in the compiled kernel')
+v('C01', 'fire', K, 'xi[0] = -chi1 * dt', 'xi[1] = -chi1 * dt', 'survey (exit 2 before): an element of an np.empty vector is read but never written')
 v('C11 C12', 'fire', FL, '    gyro_sd = np.diagonal(P_gyro, axis1=1, axis2=2) ** 0.5', '    gyro_sd = np.diagonal(P_gyro, axis1=1, axis2=2) ** 1.0', 'survey: variance reported as sd')
 v('C11 C12', 'fire', FL, '    P_gyro = P[:, gyro_block, gyro_block]', '    P_gyro = P[:, accel_block, gyro_block]', 'survey: cross block')
 v('C11 C12', 'fire', FL, '        util.mm_prod_symmetric(T, P_ins), axis1=1, axis2=2) ** 0.5', '        util.mm_prod_symmetric(P_ins, T), axis1=1, axis2=2) ** 0.5', 'survey: congruence operands exchanged')
